@@ -2,18 +2,10 @@
 import json, os
 from props import ModuleCheck, T
 
-# Finding F36 (a module-service call stores the sum of all owner tallies under the EMPTY owner; fails
-# C07_OwnerTally from then on).  Until known_findings.json has an entry matching "why.f36" (or the code is
-# fixed and FixF36 = TRUE in the cfgs), the random driver does not call the module service while owner tallies
-# exist (driver cfg f36=0) and the scenario is listed in SERVICE_PENDING only; both join automatically.
-def _f36_known():
-    try:
-        k = json.load(open(os.path.join(os.path.dirname(os.path.dirname(os.path.dirname(os.path.abspath(__file__)))),
-                                        "known_findings.json")))
-        return any("why.f36" in f.get("match", {}) for f in k.get("findings", []))
-    except Exception:
-        return False
-F36_KNOWN = _f36_known()
+# Finding F36 (a module-service call stored the sum of all owner tallies under the EMPTY owner) was repaired in
+# /repo d8189b9; FixF36 = TRUE in every Service cfg, the scenario is a regression and the random driver calls the
+# module service freely (driver cfg f36=1).
+F36_KNOWN = True
 
 
 SERVICE_CLAUSES_C07 = ["C07_DepositEscrow", "C07_RequestEscrow", "C07_OwnerTally", "C07_Charge", "C07_Answer",
